@@ -61,14 +61,20 @@ def worker(cfg, tier='quick'):
         return dict(error=[1 if z3.is_true(m.eval(b, model_completion=True)) else 0 for b in E],
                     q={s: [str(model_frac(m, t)) for t in Q[s]] for s in 'IXYZ'})
 
-    for log_output in (False, True):
-        tag = 'log' if log_output else 'prod'
+    for log_output, hist in ((False, False), (True, False), (False, True)):
+        # hist: the matching weights were computed first on the same model / code / rate (a MatchingDecoder was
+        # built, as in a splitting simulation): error_probability must still use the stated channel
+        tag = ('log' if log_output else 'prod') + ('-after-get_weights' if hist else '')
         eng = Engine(name=f'{cfg}#{tag}')
         with eng:
             def fn():
                 del calls[:]
                 del NP.observed[:]
                 model = Model(1 / 3, 1 / 3, 1 / 3)
+                if hist:
+                    BaseErrorModel.get_weights(model, code, 0.1)
+                    del calls[:]
+                    del NP.observed[:]
                 e = as_sa([Bit(b) for b in E])
                 r = BaseErrorModel.error_probability(model, e, code, 0.1, log_output=log_output)
                 after = [[term_of(c, 'real') for c in t.cells()] for t in model.tables] if model.tables else None
@@ -123,9 +129,10 @@ def worker(cfg, tier='quick'):
             bad_cells.append(z3_and(p.pc + [z3_or(diffs)]))
         col.prove(f'C18/{tag}/per-qubit-factor-is-channel-probability-of-the-letter', base, z3_or(bad_cells),
                   wit, 'factor i = q_I / q_X / q_Y / q_Z according to (x_i, z_i); all errors, all distributions')
-        col.prove(f'C18/{tag}/distribution-tables-not-altered-by-the-query', base, z3_or(bad_tables), wit,
-                  'the arrays handed out by probability_distribution (shared with every later reader: sampling, '
-                  'decoder priors) hold the same values after error_probability returned')
+        if not hist:      # (with the history, the tables are compared by the factor obligation itself)
+          col.prove(f'C18/{tag}/distribution-tables-not-altered-by-the-query', base, z3_or(bad_tables), wit,
+                    'the arrays handed out by probability_distribution (shared with every later reader: sampling, '
+                    'decoder priors) hold the same values after error_probability returned')
         col.prove(f'C18/{tag}/result-is-{"sum-of-logs" if log_output else "product"}-of-the-n-factors', base,
                   z3_or(bad_struct), wit,
                   'exactly one reduction over the n per-qubit factors (log form: sum of logs, or the log of their '
@@ -409,7 +416,17 @@ def replay(path):
     class Model(PauliErrorModel):
         def probability_distribution(self, code_, error_rate):
             return tuple(np.array(q[s]) for s in 'IXYZ')
-    model = Model(1 / 3, 1 / 3, 1 / 3)
+    if 'after-get_weights' in oid:
+        tabs2 = tuple(np.array(q[s]) for s in 'IXYZ')
+
+        class ModelH(PauliErrorModel):
+            def probability_distribution(self, code_, error_rate):
+                return tabs2
+        model = ModelH(1 / 3, 1 / 3, 1 / 3)
+        with np.errstate(all='ignore'):
+            model.get_weights(code, 0.1)
+    else:
+        model = Model(1 / 3, 1 / 3, 1 / 3)
     want = 1.0
     for i in range(n):
         want *= q[{(0, 0): 'I', (1, 0): 'X', (1, 1): 'Y', (0, 1): 'Z'}[(int(e[i]), int(e[n + i]))]][i]
